@@ -2,6 +2,7 @@ package rules
 
 import (
 	"fmt"
+	"go/token"
 	"go/types"
 	"strings"
 
@@ -187,6 +188,9 @@ func MapOrder(scopeEntries ...string) Rule {
 			r.Floor("map_range_loops", 8)
 		}
 		orderTaint(p, r, reach)
+		if specScope {
+			sortedPairs(p, r, reach)
+		}
 		r.Note("MAP-ORDER: %d map ranges in %d functions reachable from %v, %d with early exits", nLoops, len(reach), scopeEntries, nExits)
 	}
 }
@@ -399,4 +403,100 @@ func describeTaint(v ssa.Value) string {
 		return phi.Comment
 	}
 	return describe(v)
+}
+
+// sortedPairs — the "sort the two names for a stable message" idiom: when the two arms of a branch call the
+// same message constructor with two of its arguments exchanged, the branch must be an ordering test of exactly
+// those two values. Otherwise which value comes first is decided by something else (typically the order in
+// which a map range met them) and the message text differs from run to run.
+func sortedPairs(p *core.Prog, r *core.Report, reach map[*ssa.Function]bool) {
+	const rule = "MAP-ORDER"
+	n := 0
+	for _, f := range p.Funcs {
+		if !reach[f] {
+			continue
+		}
+		fn := core.FuncName(f)
+		byCallee := map[*ssa.Function][]*ssa.Call{}
+		core.EachInstr(f, func(i ssa.Instruction) {
+			if c, ok := i.(*ssa.Call); ok {
+				if g := core.StaticCallee(c); g != nil && p.InSubject(g) && len(c.Call.Args) >= 2 {
+					byCallee[g] = append(byCallee[g], c)
+				}
+			}
+		})
+		for g, calls := range byCallee {
+			for x := 0; x < len(calls); x++ {
+				for y := x + 1; y < len(calls); y++ {
+					c1, c2 := calls[x], calls[y]
+					if c1.Block() == c2.Block() {
+						continue
+					}
+					d1 := make([]string, len(c1.Call.Args))
+					d2 := make([]string, len(c2.Call.Args))
+					for k := range c1.Call.Args {
+						d1[k], d2[k] = opDesc(c1.Call.Args[k], 0), opDesc(c2.Call.Args[k], 0)
+					}
+					si, sj := -1, -1
+					same := true
+					for k := range d1 {
+						if d1[k] != d2[k] {
+							if si < 0 {
+								si = k
+							} else if sj < 0 {
+								sj = k
+							} else {
+								same = false
+							}
+						}
+					}
+					if !same || si < 0 || sj < 0 || d1[si] != d2[sj] || d1[sj] != d2[si] {
+						continue
+					}
+					// the branch separating the two calls
+					var br *ssa.BasicBlock
+					for b := c1.Block().Idom(); b != nil; b = b.Idom() {
+						if b.Dominates(c2.Block()) {
+							br = b
+							break
+						}
+					}
+					if br == nil {
+						continue
+					}
+					iff, ok := br.Instrs[len(br.Instrs)-1].(*ssa.If)
+					if !ok {
+						continue
+					}
+					n++
+					key := fn + ":" + g.Name() + ":sorted-pair"
+					a, b := d1[si], d1[sj]
+					okCmp, got := false, opDesc(iff.Cond, 0)
+					if bo, ok := iff.Cond.(*ssa.BinOp); ok {
+						var l, rr string
+						if call, ok := bo.X.(*ssa.Call); ok && len(call.Call.Args) == 2 {
+							if cg := core.StaticCallee(call); cg != nil && core.QualName(cg) == "strings.Compare" {
+								l, rr = opDesc(call.Call.Args[0], 0), opDesc(call.Call.Args[1], 0)
+							}
+						} else {
+							switch bo.Op {
+							case token.LSS, token.LEQ, token.GTR, token.GEQ:
+								l, rr = opDesc(bo.X, 0), opDesc(bo.Y, 0)
+							}
+						}
+						if (l == a && rr == b) || (l == b && rr == a) {
+							okCmp = true
+						}
+					}
+					if okCmp {
+						r.OK(rule, key, p.Pos(c1.Pos()), "the two arms exchange arguments "+fmt.Sprint(si)+" and "+fmt.Sprint(sj)+" and the branch compares exactly these two values: the message is canonical")
+					} else {
+						r.Bad(rule, key, p.Pos(c1.Pos()), "the two arms of a branch call "+g.Name()+" with two arguments exchanged, but the branch ("+got+") is not an ordering test of those two values ("+a+" , "+b+"): which one is named first depends on the order in which they were met (map iteration)")
+					}
+				}
+			}
+		}
+	}
+	r.Count("sorted_pair_idioms", n)
+	r.Floor("sorted_pair_idioms", 1)
 }
